@@ -16,6 +16,8 @@ type zzSource struct {
 }
 
 func (s *zzSource) Kh(ctx context.Context, op OperationName) (Kh, error) { return Kh{APIKey: s.token}, nil }
+func (s *zzSource) Ku(ctx context.Context, op OperationName) (Ku, error) { return Ku{APIKey: s.token}, nil }
+func (s *zzSource) Kl(ctx context.Context, op OperationName) (Kl, error) { return Kl{APIKey: s.token}, nil }
 func (s *zzSource) Kq(ctx context.Context, op OperationName) (Kq, error) { return Kq{APIKey: s.token}, nil }
 func (s *zzSource) Kc(ctx context.Context, op OperationName) (Kc, error) { return Kc{APIKey: s.token}, nil }
 func (s *zzSource) Be(ctx context.Context, op OperationName) (Be, error) { return Be{Token: s.token}, nil }
@@ -33,6 +35,16 @@ type zzSink struct {
 }
 
 func (k *zzSink) HandleKh(ctx context.Context, op OperationName, t Kh) (context.Context, error) {
+	k.calls++
+	k.got = t.APIKey
+	return ctx, nil
+}
+func (k *zzSink) HandleKu(ctx context.Context, op OperationName, t Ku) (context.Context, error) {
+	k.calls++
+	k.got = t.APIKey
+	return ctx, nil
+}
+func (k *zzSink) HandleKl(ctx context.Context, op OperationName, t Kl) (context.Context, error) {
 	k.calls++
 	k.got = t.APIKey
 	return ctx, nil
@@ -86,7 +98,7 @@ func symToken(n int) string {
 	return s
 }
 
-// kind: 0 apiKey header, 1 apiKey query, 2 apiKey cookie, 3 bearer, 4 basic, 5 oauth2 (opA: r,w), 6 oauth2 (opB: r)
+// kind 7/8: apiKey headers named X-API-Key / x-low-key; kind: 0 apiKey header, 1 apiKey query, 2 apiKey cookie, 3 bearer, 4 basic, 5 oauth2 (opA: r,w), 6 oauth2 (opB: r)
 func HTransport(kind, n int) {
 	src := &zzSource{}
 	if kind == 4 {
@@ -131,10 +143,16 @@ func HTransport(kind, n int) {
 	case 5:
 		cerr = c.securityOa(ctx, op, req)
 		_, ok, serr = s.securityOa(ctx, op, req)
-	default:
+	case 6:
 		op = OperationName(OpBOperation)
 		cerr = c.securityOa(ctx, op, req)
 		_, ok, serr = s.securityOa(ctx, op, req)
+	case 7: // header name that is not in canonical MIME form
+		cerr = c.securityKu(ctx, op, req)
+		_, ok, serr = s.securityKu(ctx, op, req)
+	default: // lower-case header name
+		cerr = c.securityKl(ctx, op, req)
+		_, ok, serr = s.securityKl(ctx, op, req)
 	}
 	zz.Assert(cerr == nil, "the client attaches the credential without error")
 	zz.Assert(zz.And(serr == nil, ok), "the server finds the credential the client attached")
